@@ -11,7 +11,7 @@
 From Coq Require Import List NArith ZArith Bool.
 From NV Require Import Syntax.Token Syntax.Ast Syntax.StmtAst Syntax.Parser Syntax.Grammar
      Syntax.ParserProofs Syntax.GrammarProofs Syntax.OpTableCheck Syntax.LexTable Syntax.FuelProofs
-     Syntax.SoundProofs Syntax.SoundSeq Syntax.TypeGrammar Syntax.TypeProofs Syntax.StmtGrammar Syntax.StmtProofs Syntax.Lexer Syntax.LexNumber Syntax.LexIdent Gen.OpTable.
+     Syntax.SoundProofs Syntax.SoundSeq Syntax.TypeGrammar Syntax.TypeProofs Syntax.TypeSound Syntax.StmtGrammar Syntax.StmtProofs Syntax.StmtSound Syntax.SoundFull Syntax.StmtFlat Syntax.Lexer Syntax.LexNumber Syntax.LexIdent Gen.OpTable.
 Import ListNotations.
 
 (* Every well-formed derivation tree, of any size and nesting depth, is read back as exactly
@@ -85,14 +85,15 @@ Print Assumptions C10_roundtrip_program.
    was consumed. *)
 Theorem C10_lex_number : forall (xid_start xid_continue : N -> bool),
   (forall c, is_ascii_digit c = true -> xid_start c = false) ->
-  forall (n : numlit) (rest : str) (d : nat),
+  forall (n : numlit) (rest : str) (d : list bool) (last : option token),
   wf_num n = true -> num_stop rest = true -> based_prefix (pr_num n ++ rest) = false ->
-  scan_single_token xid_start xid_continue d (pr_num n ++ rest) = LOk (Some (TNumber (pr_num n)), rest, d).
+  scan_single_token xid_start xid_continue d last (pr_num n ++ rest) = LOk (Some (TNumber (pr_num n)), rest, d).
 Proof. exact lex_number_complete. Qed.
 Print Assumptions C10_lex_number.
 
-Theorem C10_lex_number_sound : forall (xid_start xid_continue : N -> bool) (d : nat) (cs l r : str) (d' : nat),
-  scan_single_token xid_start xid_continue d cs = LOk (Some (TNumber l), r, d') ->
+Theorem C10_lex_number_sound : forall (xid_start xid_continue : N -> bool) (d : list bool) (last : option token)
+    (cs l r : str) (d' : list bool),
+  scan_single_token xid_start xid_continue d last cs = LOk (Some (TNumber l), r, d') ->
   exists n, wf_num n = true /\ l = pr_num n /\ cs = l ++ r /\ d' = d.
 Proof. exact lex_number_sound. Qed.
 Print Assumptions C10_lex_number_sound.
@@ -103,16 +104,18 @@ Print Assumptions C10_lex_number_sound.
    field access), is one token: the keyword it spells, else an Identifier with that lexeme.
    Conversely every Identifier token is such a word, it is not a keyword, it ends where no continue
    character follows, and nothing else was consumed. *)
-Theorem C10_lex_ident : forall (xid_start xid_continue : N -> bool) (c : N) (body rest : str) (d : nat),
+Theorem C10_lex_ident : forall (xid_start xid_continue : N -> bool) (c : N) (body rest : str)
+    (d : list bool) (last : option token),
   early c = false -> is_identifier_start xid_start c = true ->
   forallb (is_identifier_continue xid_continue) body = true ->
   ident_stop xid_start xid_continue rest = true ->
-  scan_single_token xid_start xid_continue d (c :: body ++ rest) = LOk (Some (word_token (c :: body)), rest, d).
+  scan_single_token xid_start xid_continue d last (c :: body ++ rest) = LOk (Some (word_token (c :: body)), rest, d).
 Proof. exact lex_ident_complete. Qed.
 Print Assumptions C10_lex_ident.
 
-Theorem C10_lex_ident_sound : forall (xid_start xid_continue : N -> bool) (d : nat) (cs l r : str) (d' : nat),
-  scan_single_token xid_start xid_continue d cs = LOk (Some (TIdent l), r, d') ->
+Theorem C10_lex_ident_sound : forall (xid_start xid_continue : N -> bool) (d : list bool) (last : option token)
+    (cs l r : str) (d' : list bool),
+  scan_single_token xid_start xid_continue d last cs = LOk (Some (TIdent l), r, d') ->
   exists c body, l = c :: body /\ is_identifier_start xid_start c = true
                  /\ forallb (is_identifier_continue xid_continue) body = true
                  /\ keyword_of l = None /\ cs = l ++ r
@@ -189,13 +192,55 @@ Theorem C10_sound_seq : forall ts ss,
 Proof. exact parse_sound_seq. Qed.
 Print Assumptions C10_sound_seq.
 
-(* NOT PROVED (partial): soundness for token lists with newlines (skipped inside argument lists,
-   conditionals and literals), trailing commas, and for the definition forms (fn, unit, dimension, struct,
-   use, annotated / decorated let), for which only the direction C10_roundtrip_def is proved.
-   There the correspondence check and the reference recogniser decide. *)
-Definition C10_full : Prop :=
-  forall ts ss, parse ts = Ok ss [] ->
-  exists stmts, Forall (fun s => wf_stmt s = true) stmts /\ map desugar_stmt stmts = ss.
+(* Soundness of the type parser: whatever Parser::type_annotation / dimension_expression accept is
+   the print of a well-formed type tree and denotes it (with C10_roundtrip_type / _dexpr: acceptance
+   of type annotations is characterised exactly, on all token lists). *)
+Theorem C10_sound_type : forall ts a rest, type_annotation ts = Ok a rest ->
+  exists t, wf_ty t = true /\ ty_ann t = a /\ ts = pr_ty t ++ rest.
+Proof. exact type_annotation_sound. Qed.
+Print Assumptions C10_sound_type.
+
+Theorem C10_sound_dexpr : forall ts e rest, dimension_expression ts = Ok e rest ->
+  exists t, wf_ty t = true /\ 1 <= ylvl t /\ ty_exp t = e /\ ts = pr_ty t ++ rest.
+Proof. exact dimension_expression_sound. Qed.
+Print Assumptions C10_sound_dexpr.
+
+(* Soundness for every statement form, and the theorem that stands for `C10_full`: on token lists
+   without line-break tokens and trailing commas (`core`), and without the two degenerate
+   type-parameter spellings `fn f<>(…)` / `struct S<> {…}` and `<A,>` (`tp_plain`; the parser accepts
+   them, the grammar of StmtGrammar.v has no spelling for them), whatever `parse` accepts is the
+   `;`-separated one-line print of well-formed statements and definitions (expressions incl.
+   interpolated strings, let, procedure calls, fn, dimension, unit, use, struct, decorators) and the
+   result is the list of their meanings: nothing outside the documented grammar is accepted or
+   reinterpreted.  REMAINING GAP of the full statement (all token lists): line-break tokens (inside
+   brackets, after `=`, before where / and, after decorators, blank lines), trailing commas, and the
+   two spellings above; for those only the completeness direction (C10_roundtrip_program for line
+   breaks between statements and after decorators) and the correspondence check apply. *)
+Theorem C10_sound_statement : forall ts st rest, core ts = true -> tp_plain ts = true ->
+  statement ts = Ok st rest ->
+  exists it, wf_item it = true /\ desugar_item it = st /\ ts = pr_item_flat it ++ rest.
+Proof. exact statement_sound_full. Qed.
+Print Assumptions C10_sound_statement.
+
+Theorem C10_full_partial : forall ts ss,
+  core ts = true -> tp_plain ts = true -> parse ts = Ok ss [] ->
+  ts = [] /\ ss = [] \/
+  exists items trailing, items <> [] /\ Forall (fun i => wf_item i = true) items
+    /\ ts = pr_program_semi items trailing /\ ss = map desugar_item items.
+Proof. exact parse_sound_full. Qed.
+Print Assumptions C10_full_partial.
+
+(* ... and conversely every such one-line program is accepted with that meaning: on token lists without
+   line-break tokens and trailing commas (and tp_plain) acceptance by `parse` is characterised exactly,
+   for every statement form. *)
+Theorem C10_characterised_full : forall ts ss,
+  core ts = true -> tp_plain ts = true ->
+  (parse ts = Ok ss [] <->
+   (ts = [] /\ ss = []) \/
+   exists items trailing, items <> [] /\ Forall (fun i => wf_item i = true) items
+     /\ ts = pr_program_semi items trailing /\ ss = map desugar_item items).
+Proof. exact parse_characterised_full. Qed.
+Print Assumptions C10_characterised_full.
 
 (* ---- non-vacuity *)
 Definition id_ (c : N) : sx := SIdent [c].
@@ -337,5 +382,40 @@ Example C10_ex_identifiers :
   /\ ident_stop st co [32]%N = true /\ ident_stop st co [46; 49]%N = false /\ ident_stop st co [46; 97]%N = true
   /\ word_token [120; 121; 49]%N = TIdent [120; 121; 49]%N
   /\ word_token [108; 101; 116]%N = TKw KLet
-  /\ scan_single_token st co 0 [120; 121; 49; 32; 43]%N = LOk (Some (TIdent [120; 121; 49]%N), [32; 43]%N, 0%nat).
+  /\ scan_single_token st co [] None [120; 121; 49; 32; 43]%N = LOk (Some (TIdent [120; 121; 49]%N), [32; 43]%N, []).
+Proof. vm_compute. repeat split; reflexivity. Qed.
+
+(* interpolated strings: the text  "a{x+1:.2f}b{y}"  is lexed into the opening part, the tokens of the
+   first expression, its format specifiers, the middle part, the second expression and the closing
+   part (scope stack and last-token state of the tokenizer); the parser reads the token list as the
+   documented parts; an empty interpolation and a struct brace inside one are errors *)
+Example C10_ex_interpolation :
+  let st := fun c : N => in_range 97 122 c in
+  let co := fun c : N => in_range 97 122 c || in_range 48 57 c in
+  let text := [34; 97; 123; 120; 43; 49; 58; 46; 50; 102; 125; 98; 123; 121; 125; 34]%N in
+  let t := SInterp [34; 97; 123]%N
+             [(SBin TPlus (id_ 120) (num_ 49), Some [58; 46; 50; 102]%N, [125; 98; 123]%N);
+              (id_ 121, None, [125; 34]%N)] in
+  tokenize st co text = LOk (pr t)
+  /\ wf t = true
+  /\ parse (pr t) = Ok [StExpr (EInterp [PFixed [97]%N; PExpr (EBin Add (EIdent [120]%N) (EScalar [49]%N)) (Some [58; 46; 50; 102]%N);
+                                          PFixed [98]%N; PExpr (EIdent [121]%N) None])] []
+  /\ parse [TInterpStart [34; 123]; TInterpEnd [125; 34]]%N = Err EmptyStringInterpolation
+  /\ parse [TInterpStart [34; 123]; TIdent [120]]%N = Err UnterminatedStringParse
+  /\ tokenize st co [34; 123; 120; 123; 125; 125; 34]%N = LErr UnexpectedCurlyInInterpolation
+  /\ tokenize st co [34; 123; 120; 32; 34; 98; 34; 125; 34]%N = LErr UnterminatedStringInterpolation.
+Proof. vm_compute. repeat split; reflexivity. Qed.
+
+(* soundness hypotheses are satisfiable and exclude what they should: a one-line program with a
+   decorated fn and a struct is core / tp_plain, parses, and is the print of its items *)
+Example C10_ex_sound_full :
+  let f := SFFn [SDName [34; 78; 34]%N] [102]%N [([68]%N, true)] [([120]%N, Some (YIdent [68]%N None))]
+                None (Some (id_ 120, [])) in
+  let s := SFStruct [83]%N [] [([97]%N, YList YBool)] in
+  let ts := pr_program_semi [IDef f; IDef s; IStmt (SSExpr (id_ 120))] true in
+  core ts = true /\ tp_plain ts = true
+  /\ parse ts = Ok [desugar_def f; desugar_def s; StExpr (EIdent [120]%N)] []
+  /\ tp_plain [TKw KFn; TIdent [102]; TLessThan; TGreaterThan; TLParen; TRParen]%N = false
+  /\ tp_plain [TKw KFn; TIdent [102]; TLessThan; TIdent [65]; TComma; TGreaterThan]%N = false
+  /\ core [TIdent [102]; TLParen; TNewline; TRParen]%N = false.
 Proof. vm_compute. repeat split; reflexivity. Qed.
